@@ -941,10 +941,9 @@ def check_version(ctx):
             R.guard(ctx, inst, b, [s], A.pred_edges(b, v1, "true"), "the larger v1 bound applies only to format version 1")
 
 
-def check_bounds(ctx):
+def check_bounds(ctx, inst="C10.bounds"):
     """limits that decide what counts as a (recoverable) record: strictness and operands pinned"""
     from rules.common import pin_comparisons
-    inst = "C10.bounds"
     def C(name):
         return lambda e: e.has_const(name=name) and not any(x.k == "bin" for x in e.walk())
     def keylen(b):
@@ -956,6 +955,23 @@ def check_bounds(ctx):
             ("Lt", C("MAX_RECOVERABLE_KEY_SIZE"), keylen(b), "a key of exactly MAX_RECOVERABLE_KEY_SIZE is accepted (`len <= MAX`)"),
             ("Lt", C("MAX_RECOVERABLE_KEY_SIZE_V1"), keylen(b), "on v1 a key of exactly MAX_RECOVERABLE_KEY_SIZE_V1 is accepted"),
         ])
+    b = ctx.fn("FeoxStore::validate_new_key", inst)
+    if b is not None:
+        # the larger allowance belongs to the v1 header only (v2 / v3 carry the 8-byte TTL field): it is granted under
+        # `format_version == 1`, nothing wider
+        def is_v1(e):
+            return e.k == "bin" and e.extra == "Eq" and e.has_field("FeoxStore", "format_version") and any(x.k == "const" and (x.extra or {}).get("val") == 1 for x in e.a) and \
+                not any(x.k == "bin" for x in e.a[0].walk()) and not any(x.k == "bin" for x in e.a[1].walk())
+        v1_edges = A.pred_edges(b, is_v1, "true")
+        ctx.check(len(A.pred_switches(b, is_v1)) == 1, inst, "PIN", b.path, "the v1 key allowance is gated by `format_version == 1` exactly", None)
+        def v1lim(e):
+            return e.k == "bin" and e.extra == "Lt" and e.has_const(name="MAX_RECOVERABLE_KEY_SIZE_V1")
+        lim_sw = A.pred_switches(b, v1lim)
+        fver = [n.id for n in b.nodes if n.kind == "assign" and n.ev.get("rv") in ("bin",) and v1lim(A.tracer(b, transparent=False).node_value(n.id))]
+        if v1_edges:
+            R.guard(ctx, inst, b, lim_sw or fver, v1_edges, "MAX_RECOVERABLE_KEY_SIZE_V1 is consulted only for a version-1 device")
+        vers = [x for n in b.nodes if n.kind == "switch" for x in [A.switch_info(b, n.id).root] if x.has_field("FeoxStore", "format_version")]
+        ctx.check(len(vers) == 1, inst, "PIN", b.path, "format_version is tested once in validate_new_key (found %d tests)" % len(vers), None)
     b = ctx.fn("FeoxStore::validate_key_value", inst)
     if b is not None:
         pin_comparisons(ctx, inst, b, [
